@@ -1,12 +1,62 @@
 (* Properties_C02.v -- property theorems only.  C02: the active configuration is legal after every
-   microstep.  See the comment at each theorem for its reach. *)
-From V Require Import Base NameMatch Chart Exec Large LargeLemmas Legal.
+   microstep.
 
-(* for every chart, configuration, event and datamodel state the selected transitions are pairwise
-   free of exit-set overlap: the reason two selected transitions cannot both re-complete the same
-   compound state *)
+   Reach of the theorems: the model Large.v of LargeMicroStep::step (repaired code) on the history-free
+   core -- charts whose flat tables satisfy the boolean check wf_coreb (states, compounds with one default
+   child, parallels, finals; transitions external/internal/target-less/multi-target with legal target
+   sets; any executable content, conditions, events).  For those charts legality holds for EVERY run:
+   all event histories, all datamodel states, any number of steps.  History and <initial> pseudo-states,
+   deep initial attributes, the fast engine and the generated C are covered by the oracle legal_configb
+   on every configuration the implementation reports (see the check), not by these theorems. *)
+From V Require Import Base NameMatch Chart Exec Large LargeLemmas Interp Legal SetLemmas
+     LegalAbstract LegalLarge LegalRun WfCore LegalOracle.
+
+(* the set-level reason: (C - X) + E is legal whenever C is and X, E are what a microstep computes *)
+Theorem microstep_sets_preserve_legality :
+  forall c (W : WF c) cfg sel,
+    Legal (fun i => fs_parent (st c i)) (fun i => fs_children (st c i)) (fun i => fs_type (st c i)) (fun x => In x cfg) ->
+    (forall x, In x cfg -> x < nstates c) ->
+    (forall ti, In ti sel -> In (ft_source (tr c ti)) cfg) ->
+    pairwise_ok lg_fixed c sel ->
+    forall hist,
+    Legal (fun i => fs_parent (st c i)) (fun i => fs_children (st c i)) (fun i => fs_type (st c i))
+          (fun x => (In x cfg /\ ~ In x (exitset c cfg sel)) \/ In x (Efs c cfg sel hist)).
+Proof. exact microstep_sets_legal. Qed.
+Print Assumptions microstep_sets_preserve_legality.
+
+(* one step() of the engine model keeps the configuration legal (or still empty before initialisation) *)
+Theorem microstep_preserves_legal :
+  forall c xv, wf_coreb c = true -> fs_type (st c 0) = FCompound ->
+  forall l x, CfgOK c l -> CfgOK c (fst (fst (large_step lg_fixed xv c l x))).
+Proof. intros c xv H R. apply large_step_legal; [now apply wf_coreb_sound | exact R]. Qed.
+Print Assumptions microstep_preserves_legal.
+
+(* after initialisation and after every microstep of every run: all event histories, any number of steps *)
+Theorem run_always_legal :
+  forall c xv, wf_coreb c = true -> fs_type (st c 0) = FCompound ->
+  forall fuel evs,
+    CfgOK c (fst (run_loop c lstate (large_step lg_fixed xv c) l_cfg fuel l_pristine x_init evs)).
+Proof.
+  intros c xv H R fuel evs. apply run_states_legal; [now apply wf_coreb_sound | exact R | apply pristine_ok].
+Qed.
+Print Assumptions run_always_legal.
+
+(* the oracle applied to the implementation's configurations implies the legality notion of the theorems *)
+Theorem oracle_implies_legal :
+  forall c, wf_coreb c = true -> forall cfg, legal_configb c cfg = true -> LegalCfg c cfg.
+Proof. intros c H cfg. apply legal_configb_sound. now apply wf_coreb_sound. Qed.
+Print Assumptions oracle_implies_legal.
+
+(* the selected transitions of a microstep are pairwise free of exit-set overlap, for every chart *)
 Theorem selected_transitions_conflict_free :
   forall v c cfg ev order x,
     pairwise_ok v c (fst (select_loop v c cfg ev order None [] x)).
 Proof. intros. apply select_loop_pairwise. apply nil_pairwise. Qed.
 Print Assumptions selected_transitions_conflict_free.
+
+(* non-vacuity: a chart with a parallel state, nested compounds, a legal multi-target transition, target-less
+   and internal transitions passes wf_coreb, and a run of it reaches a configuration with both regions active *)
+Theorem hypotheses_satisfiable :
+  wf_coreb (flatten false ex_tree) = true /\ fs_type (st (flatten false ex_tree) 0) = FCompound.
+Proof. exact ex_tree_wf. Qed.
+Print Assumptions hypotheses_satisfiable.
